@@ -1160,6 +1160,13 @@ class Interp:
                 return False
         if lv == rv and isinstance(lv, (Sym, App, StrT)):
             return True
+        if isinstance(lv, Obj) and isinstance(rv, Obj):
+            def ground(o):
+                return all(isinstance(x, (Obj, Const, EnumM, ListV)) for x in walk_av(o))
+            if lv.cls != rv.cls:
+                return False
+            if ground(lv) and ground(rv):
+                return lv == rv
         if isinstance(lv, ListV) and isinstance(rv, ListV) and not lv.open and not rv.open:
             if len(lv.items) != len(rv.items):
                 return False
@@ -1465,6 +1472,11 @@ class Interp:
                 if not lv.open and not rv.open:
                     return ListV(lv.items + rv.items, False, lv.kind)
                 return ListV(tuple(dict.fromkeys(lv.items + rv.items)), True, lv.kind, lv.nonempty or rv.nonempty)
+        if isinstance(op, (ast.BitAnd, ast.BitOr)) and isinstance(lv, ListV) and isinstance(rv, ListV) and not lv.open and not rv.open \
+                and all(isinstance(x, (Const, EnumM)) for x in lv.items + rv.items):
+            if isinstance(op, ast.BitAnd):
+                return ListV(tuple(x for x in lv.items if x in set(rv.items)), False, "set")
+            return ListV(tuple(dict.fromkeys(lv.items + rv.items)), False, "set")
         if isinstance(lv, Const) and isinstance(rv, Const) and isinstance(lv.v, (int, float)) and isinstance(rv.v, (int, float)):
             try:
                 if isinstance(op, ast.Sub):
@@ -1665,6 +1677,12 @@ class Interp:
                         s.env[path] = ListV(recv.items, recv.open, recv.kind, recv.nonempty,
                                             frozenset((set(recv.tags) - {"sorted+edit"}) | {"sorted"}))
                     return [(Const(None), s)]
+                if meth in ("isdisjoint", "issubset", "issuperset", "intersection") and len(args) == 1 and isinstance(args[0], ListV) \
+                        and not recv.open and not args[0].open and all(isinstance(x, (Const, EnumM)) for x in recv.items + args[0].items):
+                    a_, b_ = set(recv.items), set(args[0].items)
+                    if meth == "intersection":
+                        return [(ListV(tuple(x for x in recv.items if x in b_), False, "set"), s)]
+                    return [(Const({"isdisjoint": a_.isdisjoint(b_), "issubset": a_ <= b_, "issuperset": a_ >= b_}[meth]), s)]
                 if meth == "union" and len(args) == 1 and isinstance(args[0], ListV):
                     o = args[0]
                     return [(ListV(tuple(dict.fromkeys(recv.items + o.items)), recv.open or o.open or True, recv.kind), s)]
